@@ -43,7 +43,54 @@ def _loop_env(lp: ast.While) -> dict[str, ast.AST]:
             env[s.targets[0].id] = s.value
         if isinstance(s, ast.AugAssign) and isinstance(s.target, ast.Name):
             counts[s.target.id] = counts.get(s.target.id, 0) + 1
+        if isinstance(s, ast.NamedExpr):
+            counts[s.target.id] = counts.get(s.target.id, 0) + 1
+            env[s.target.id] = s.value
     return {k: v for k, v in env.items() if counts[k] == 1}
+
+
+def _is_read(e: ast.AST, n: int) -> bool:
+    return isinstance(e, ast.Call) and (call_name(e) or "").endswith(".read") and len(e.args) == 1 and const_int(e.args[0]) == n
+
+
+def _sentinel(lp: ast.While, env: dict[str, ast.AST]) -> tuple[str, str | None]:
+    """How the reader recognises the trailer before each record: ("read", header name) when the three header bytes are
+    read and compared with b'EOF' (and the same bytes are then decoded), ("peek", None) for a look-ahead through
+    BufferedReader.peek, ("unknown", None) otherwise."""
+    def eof_cmp(t: ast.AST, op: type) -> ast.AST | None:
+        if isinstance(t, ast.Compare) and len(t.ops) == 1 and isinstance(t.ops[0], op):
+            l, r = t.left, t.comparators[0]
+            if unparse(r) == "b'EOF'":
+                return l
+            if unparse(l) == "b'EOF'":
+                return r
+        return None
+
+    def classify(lhs: ast.AST) -> tuple[str, str | None]:
+        if isinstance(lhs, ast.NamedExpr) and _is_read(lhs.value, 3):
+            return "read", lhs.target.id
+        if isinstance(lhs, ast.Name) and lhs.id in env and _is_read(env[lhs.id], 3):
+            return "read", lhs.id
+        if ".peek(" in unparse(lhs):
+            return "peek", None
+        return "unknown", None
+
+    breaks = [b for b in walk_no_nested(lp) if isinstance(b, ast.Break)]
+    lhs = eof_cmp(lp.test, ast.NotEq)
+    if lhs is not None:
+        return classify(lhs)  # a break inside the body is judged by the early-exit rule
+    if isinstance(lp.test, ast.BoolOp) and isinstance(lp.test.op, ast.And) and any(eof_cmp(v, ast.NotEq) is not None for v in lp.test.values):
+        return "extra-exit", None
+    if unparse(lp.test) == "True" and breaks:
+        # [h = f.read(3);] if <lhs> == b'EOF': break   -- before anything else of the iteration is read
+        body = list(lp.body)
+        if body and isinstance(body[0], ast.Assign) and len(body[0].targets) == 1 and isinstance(body[0].targets[0], ast.Name) and _is_read(body[0].value, 3):
+            body = body[1:]
+        if body and isinstance(body[0], ast.If) and not body[0].orelse and len(body[0].body) == 1 and isinstance(body[0].body[0], ast.Break):
+            lhs = eof_cmp(body[0].test, ast.Eq)
+            if lhs is not None:
+                return classify(lhs)
+    return "unknown", None
 
 
 def r1_record_kinds(ctx: Ctx) -> None:
@@ -100,24 +147,31 @@ def r2_fields(ctx: Ctx) -> None:
     magic = [s for s in walk_no_nested(fn.node) if isinstance(s, ast.If) and "b'PATCH'" in unparse(s.test)]
     ok = len(magic) == 1 and always_raises(magic[0].body) and unparse(magic[0].test).endswith(".read(5) != b'PATCH'")
     ctx.check(ok, "IncludeIpsNode.__init__:magic", "the first five bytes must be PATCH, else the file is rejected")
-    guard = unparse(lp.test)
-    breaks = [b for b in walk_no_nested(lp) if isinstance(b, ast.Break)]
-    if guard.endswith(".peek(3)[:3] != b'EOF'") and not breaks:
-        ctx.ok("IncludeIpsNode.__init__:sentinel", "records are read until the EOF marker")
-    elif guard == "True":
-        gl = CFG(fn.node)
-        ok_b = bool(breaks) and all(any(t.endswith(".peek(3)[:3] == b'EOF'") and pol for t, pol in gl.path_conditions(gl.node_of(b), fn.node)) for b in breaks)
-        # the marker is looked for before each record: the break test precedes every read of the iteration
-        first = lp.body[0]
-        ok_first = isinstance(first, ast.If) and unparse(first.test).endswith(".peek(3)[:3] == b'EOF'") and any(isinstance(x, ast.Break) for x in first.body)
-        ctx.check(ok_b and ok_first, "IncludeIpsNode.__init__:sentinel", "the loop ends only when the next three bytes are the EOF marker, tested before each record")
+    env = _loop_env(lp)
+    kind, hdr = _sentinel(lp, env)
+    if kind == "read":
+        users = [u for u in walk_no_nested(lp) if isinstance(u, ast.Call) and unpack_call(u) is not None and isinstance(unpack_call(u)[1], ast.Name) and unpack_call(u)[1].id == hdr]  # type: ignore[index,union-attr]
+        ok_h = len(users) == 1 and [f[1] for f in unpack_call(users[0])[0].fields] == [1, 2]  # type: ignore[index]
+        other_uses = [n for st in lp.body for n in ast.walk(st) if isinstance(n, ast.Name) and n.id == hdr and isinstance(n.ctx, ast.Load)]
+        if not users and other_uses and not (unparse(lp.test) == "True" and len(other_uses) == 1):
+            raise AnalysisError(f"IncludeIpsNode.__init__: header bytes `{hdr}` decoded by an unmodelled construct")
+        ctx.check(ok_h, "IncludeIpsNode.__init__:header-bytes", f"the three bytes `{hdr}` compared with the marker are the ones decoded as the record offset "
+                  "(reading the header again skips three bytes of every record)")
+        ctx.ok("IncludeIpsNode.__init__:sentinel", f"records are read until the three header bytes `{hdr}` are the EOF marker, tested before each record")
+    elif kind == "peek":
+        ctx.fail("IncludeIpsNode.__init__:sentinel", "the EOF marker is looked for through BufferedReader.peek, which returns only what is left in the "
+                 "buffer: a well-formed patch whose trailer straddles a buffer boundary (8193 or 8194 bytes) is rejected")
+    elif kind == "extra-exit":
+        ctx.fail("IncludeIpsNode.__init__:sentinel", f"the loop also ends on a condition other than the EOF marker (guard `{unparse(lp.test)}`): a patch cut "
+                 "off at a record boundary is accepted")
     else:
-        ctx.fail("IncludeIpsNode.__init__:sentinel", f"records are read until the EOF marker; guard `{guard}`")
+        raise AnalysisError(f"IncludeIpsNode.__init__: trailer test not recognised (guard `{unparse(lp.test)}`)")
     env = _loop_env(lp)
     ups = [n for n in walk_no_nested(lp) if isinstance(n, ast.Call) and unpack_call(n) is not None]
     for u in ups:
         fmt, src = unpack_call(u)  # type: ignore[misc]
         ctx.count("unpacks")
+        src = inline(src, env)
         rd = isinstance(src, ast.Call) and (call_name(src) or "").endswith(".read") and len(src.args) == 1
         n = const_int(src.args[0]) if rd else None  # type: ignore[union-attr]
         ctx.check(rd and n == fmt.size and fmt.order in (">", "!"), f"IncludeIpsNode.__init__:unpack {fmt.text}",
@@ -145,7 +199,7 @@ def r2_fields(ctx: Ctx) -> None:
         if isinstance(s, (ast.Return, ast.Continue)):
             ctx.fail(f"IncludeIpsNode.__init__:{type(s).__name__.lower()}", "the loop must end only at the EOF marker; an early exit accepts a truncated patch")
         if isinstance(s, ast.Break):
-            at_eof = any(t.endswith(".peek(3)[:3] == b'EOF'") and pol for t, pol in gl2.path_conditions(gl2.node_of(s), fn.node))
+            at_eof = any(t in (f"{hdr} == b'EOF'", f"b'EOF' == {hdr}") and pol for t, pol in gl2.path_conditions(gl2.node_of(s), fn.node, keep=[hdr] if hdr else []))
             ctx.check(at_eof, "IncludeIpsNode.__init__:break", "the loop must end only at the EOF marker; an early exit accepts a truncated patch")
     for t in [n for n in walk_no_nested(fn.node) if isinstance(n, ast.Try)]:
         ctx.fail("IncludeIpsNode.__init__:try", "a handler inside the reader can swallow the struct.error that rejects truncated files")
